@@ -99,13 +99,13 @@ def c14_include(shape: int, mid: bool, a1: bool, a2: bool, b1: bool, b2: bool, c
 LOCS = ['', '/p1', '/p2']
 
 
-def c14_search(order: bool, rorder: bool, absolute: bool,
+def c14_search(badinc: bool, order: bool, rorder: bool, absolute: bool,
                e00: bool, e01: bool, e10: bool, e11: bool, e20: bool, e21: bool) -> bool:
   """
   pre: True
   """
   world.fresh()
-  order, rorder, absolute = rt.flag(order), rt.flag(rorder), rt.flag(absolute)
+  order, rorder, absolute, badinc = rt.flag(order), rt.flag(rorder), rt.flag(absolute), rt.flag(badinc)
   # existence of the file per (location, reader) stays SYMBOLIC: Gin's resolution
   # loop forks on the readers' existence checks themselves
   exists = {('', 0): e00, ('', 1): e01, ('/p1', 0): e10, ('/p1', 1): e11,
@@ -125,8 +125,9 @@ def c14_search(order: bool, rorder: bool, absolute: bool,
 
     def op(path):
       seen.append((path, reader))
-      return world._MemFile(path, 'vw.dflt.a = %d\n' % (100 + 10 * LOCS.index(
-          path[:-len('/f.gin')] if (path.endswith('/f.gin') and not absolute) else '') + reader))
+      code = 100 + 10 * LOCS.index(path[:-len('/f.gin')] if (path.endswith('/f.gin') and not absolute) else '') + reader
+      # with `badinc` every candidate first binds its code, then includes a name nobody can read
+      return world._MemFile(path, 'vw.dflt.a = %d\n' % code + ("include 'nobody_has_this.gin'\nvw.dflt.b = 1\n" if badinc else ''))
     return op, ex
 
   readers = [make(0), make(1)]
@@ -152,18 +153,27 @@ def c14_search(order: bool, rorder: bool, absolute: bool,
     for r in rorder_ids:
       if winner is None and exists[(loc, r)]:      # (forks only on feasible paths)
         winner = (loc, r)
-  rt.sig(('search', order, rorder, absolute, winner), nontrivial=winner is not None)
+  rt.sig(('search', badinc, order, rorder, absolute, winner), nontrivial=winner is not None)
   if winner is None:
     if not isinstance(exc, IOError) or gc._CONFIG:
       return rt.no('missing everywhere must raise IOError and apply nothing')
     with rt.native():
       msg = str(exc)
       return (name in msg and all(repr(l) in msg for l in search)) or rt.no('IOError text')
-  if exc is not None:
-    return rt.no('unexpected exception')
   want = 100 + 10 * LOCS.index(winner[0]) + winner[1]
   if absolute:
     want = 100 + winner[1]
+  if badinc:
+    # the first-found file is THE file: its unreadable include raises, what preceded it took effect,
+    # and no other candidate is ever opened
+    if not isinstance(exc, IOError):
+      return rt.no('unreadable include inside the first-found file must raise IOError')
+    if len(seen) != 1:
+      return rt.no('another candidate was opened after the failure: %r' % (seen,))
+    return (gin.query_parameter('vw.dflt.a') == want and gin.get_bindings('vw.dflt') == {'a': want}) or rt.no(
+        'bindings after the failed include')
+  if exc is not None:
+    return rt.no('unexpected exception')
   return gin.query_parameter('vw.dflt.a') == want or rt.no('wrong file')
 
 
@@ -241,16 +251,16 @@ HARNESSES = {
         fn='c14_search',
         anchors=['gin.config:parse_config_file', 'gin.config:register_file_reader',
                  'gin.config:add_config_file_search_path'],
-        smoke=[dict(order=True, rorder=False, absolute=False, e00=False, e01=False, e10=True, e11=True,
+        smoke=[dict(badinc=False, order=True, rorder=False, absolute=False, e00=False, e01=False, e10=True, e11=True,
                     e20=True, e21=False),
-               dict(order=False, rorder=True, absolute=True, e00=False, e01=False, e10=True, e11=True,
+               dict(badinc=True, order=False, rorder=True, absolute=False, e00=False, e01=False, e10=True, e11=True,
                     e20=True, e21=False)],
         tiers={'quick': dict(split=dict(order=[False, True], rorder=[False, True]), budget_s=100),
                'thorough': dict(split=dict(order=[False, True], rorder=[False, True],
                                            absolute=[False, True]), budget_s=300)},
         bounds='3 search locations (current directory + 2 added in either order) x 2 readers registered in either '
                'order; existence of the file per (location, reader) is a symbolic boolean returned by the reader\'s '
-               'own existence check; relative or absolute name'),
+               'own existence check; relative or absolute name; optionally every candidate includes a name nobody can read (the failure must propagate, no fall-through)'),
     'c14_entry': dict(
         fn='c14_entry',
         anchors=['gin.config:parse_config_files_and_bindings', 'gin.config:finalize'],
